@@ -20,6 +20,19 @@ if TYPE_CHECKING:
 logger = logging.getLogger(__name__)
 
 
+def _enter_fault_window(entity: object) -> None:
+    """Mark the entity as down; windows may overlap, so count them."""
+    entity._fault_windows = getattr(entity, "_fault_windows", 0) + 1  # type: ignore[attr-defined]
+    entity._crashed = True  # type: ignore[attr-defined]
+
+
+def _leave_fault_window(entity: object) -> None:
+    """End one window; the entity comes back only when no window covers it."""
+    remaining = max(0, getattr(entity, "_fault_windows", 1) - 1)
+    entity._fault_windows = remaining  # type: ignore[attr-defined]
+    entity._crashed = remaining > 0  # type: ignore[attr-defined]
+
+
 @dataclass(frozen=True)
 class CrashNode:
     """Crash a node at a specific time, optionally restart later.
@@ -44,7 +57,7 @@ class CrashNode:
         events: list[Event] = []
 
         def crash(e: Event) -> None:
-            entity._crashed = True  # type: ignore[attr-defined]
+            _enter_fault_window(entity)
             logger.info("[FaultInjection] Crashed '%s' at %s", entity_name, e.time)
 
         events.append(
@@ -59,7 +72,7 @@ class CrashNode:
         if self.restart_at is not None:
 
             def restart(e: Event) -> None:
-                entity._crashed = False  # type: ignore[attr-defined]
+                _leave_fault_window(entity)
                 logger.info(
                     "[FaultInjection] Restarted '%s' at %s",
                     entity_name,
@@ -101,11 +114,11 @@ class PauseNode:
         events: list[Event] = []
 
         def pause(e: Event) -> None:
-            entity._crashed = True  # type: ignore[attr-defined]
+            _enter_fault_window(entity)
             logger.info("[FaultInjection] Paused '%s' at %s", entity_name, e.time)
 
         def resume(e: Event) -> None:
-            entity._crashed = False  # type: ignore[attr-defined]
+            _leave_fault_window(entity)
             logger.info("[FaultInjection] Resumed '%s' at %s", entity_name, e.time)
 
         events.append(
